@@ -94,6 +94,16 @@ impl Extension {
         Ok(())
     }
 
+    /// The namespaces reserved by XML itself cannot be bound to an extension prefix.
+    pub(crate) fn validate_url(url: &str) -> Result<()> {
+        if url == "http://www.w3.org/XML/1998/namespace" || url == "http://www.w3.org/2000/xmlns/" {
+            Error::invalid(format!(
+                "The URL '{url}' is reserved by XML and cannot be used for an extension"
+            ))?
+        }
+        Ok(())
+    }
+
     pub(crate) fn validate_name(name: &str) -> Result<()> {
         if name.is_empty() {
             Error::invalid("Strings used as XML namespaces or attributes must not be empty")?
